@@ -12,6 +12,7 @@ TRUSTED_BASE = [
 ]
 
 T = "TlshVerif.Theorems."
+VERIF_DIR = __import__("os").path.dirname(__import__("os").path.dirname(__import__("os").path.abspath(__file__)))
 
 PROPS = {
     "C03": {
@@ -396,6 +397,16 @@ PROPS = {
                         "invalid_type errors); the format crates are exercised, not modelled"],
     },
     "C17": {
+        "extra_cmds_thorough": [
+            ("Miri: `mini` stream, default features + `unsafe` (run-time dispatch falls back to the pseudo-SIMD kernels)",
+             "python3 tools/miri_run.py unsafe 'easy fast-tlsh/default fast-tlsh/unsafe'", VERIF_DIR),
+            ("Miri: `mini` stream, static AVX2/SSE4.1/SSSE3 kernels + `unsafe`",
+             "python3 tools/miri_run.py avx2 'easy fast-tlsh/default fast-tlsh/unsafe' '-C target-feature=+avx2,+sse4.1,+ssse3'", VERIF_DIR),
+            ("Miri: `mini` stream, static SSE2 kernels, no tables-free paths (`opt-default,simd`) + `unsafe`",
+             "python3 tools/miri_run.py sse2 'easy fast-tlsh/opt-default fast-tlsh/simd fast-tlsh/unsafe'", VERIF_DIR),
+            ("Miri: `mini` stream, no optional features + `unsafe` (table-free code paths)",
+             "python3 tools/miri_run.py bare 'easy fast-tlsh/unsafe'", VERIF_DIR),
+        ],
         "modules": [T + "C17"],
         "theorems": [(T + "C17.invariant_sites", T + "C17"),
                      (T + "C17.invariant_tail_size", T + "C17"),
@@ -429,7 +440,7 @@ PROPS = {
             "PARTIAL: absence of undefined behaviour inside compiled `unsafe` blocks (x86 intrinsics, pointer loads), "
             "in LLVM's use of a false unreachable_unchecked, and in third-party unsafe code (hex-simd) cannot be "
             "exhibited by the model; the claim is the listed obligations plus the dev/unsafe-build runs",
-            "AddressSanitizer / Miri are not part of the quick tier",
+            "Miri runs only in the thorough tier and only on the small `mini` stream; AddressSanitizer is not used",
         ],
     },
     "C18": {
